@@ -151,7 +151,7 @@ pub fn run(tier: &str, seed: u64, out: &Path) -> i32 {
         clean.iter().map(|c| (*c).clone()).collect()
     } else {
         // all base cases + a seeded sample of the rest
-        let n = 6000usize;
+        let n = 15000usize;
         let mut v: Vec<Case> = clean.iter().filter(|c| c.id.ends_with("|base")).map(|c| (*c).clone()).collect();
         let rest: Vec<&&Case> = clean.iter().filter(|c| !c.id.ends_with("|base")).collect();
         for _ in 0..n.min(rest.len()) {
@@ -182,6 +182,97 @@ pub fn run(tier: &str, seed: u64, out: &Path) -> i32 {
             _ => {}
         }
     }
+    // boundary-width family: items of the fixtures at the widths where one of their lines is exactly as wide as the page
+    let its = crate::boundary::items(&progs);
+    let plan = crate::boundary::plan(&its, timeout);
+    let bdirty = crate::boundary::load_list("c02_boundary_dirty.txt");
+    let mut planned: Vec<Case> = vec![];
+    let mut bdirty_cases: Vec<Case> = vec![];
+    for (it, ws) in its.iter().zip(plan.iter()) {
+        for w in ws {
+            let c = Case { id: crate::boundary::elem_id(it, *w), src: it.src.clone(), cfg: merge_cfg(&it.cfg, &[("max_width".into(), w.to_string())]) };
+            if bdirty.contains(&format!("{}|*", it.id)) {
+                continue;
+            }
+            if bdirty.contains(&c.id) {
+                bdirty_cases.push(c);
+            } else {
+                planned.push(c);
+            }
+        }
+    }
+    o.count_n("boundary:items", its.len() as u64);
+    o.count_n("boundary:planned (item, width) pairs", planned.len() as u64);
+    o.count_n("boundary:listed dirty or slow", bdirty.len() as u64);
+    let bchosen: Vec<Case> = if tier == "thorough" {
+        // the whole universe: every usable item at every width
+        let mut v = vec![];
+        for (it, ws) in its.iter().zip(plan.iter()) {
+            if ws.is_empty() || bdirty.contains(&format!("{}|*", it.id)) {
+                continue;
+            }
+            for w in 20..=200usize {
+                let c = Case { id: crate::boundary::elem_id(it, w), src: it.src.clone(), cfg: merge_cfg(&it.cfg, &[("max_width".into(), w.to_string())]) };
+                if !bdirty.contains(&c.id) {
+                    v.push(c);
+                }
+            }
+        }
+        v
+    } else {
+        // every planned pair, plus a seeded sample of the rest of the universe
+        let mut v = planned.clone();
+        let mut r = Rng::new(seed ^ 0xb02);
+        let usable: Vec<&crate::boundary::Item> = its.iter().zip(plan.iter()).filter(|(it, ws)| !ws.is_empty() && !bdirty.contains(&format!("{}|*", it.id))).map(|(it, _)| it).collect();
+        for _ in 0..10000usize {
+            if usable.is_empty() {
+                break;
+            }
+            let it = *r.pick(&usable);
+            let w = r.range(20, 200);
+            let c = Case { id: crate::boundary::elem_id(it, w), src: it.src.clone(), cfg: merge_cfg(&it.cfg, &[("max_width".into(), w.to_string())]) };
+            if !bdirty.contains(&c.id) {
+                v.push(c);
+            }
+        }
+        v
+    };
+    let bres = judge(&bchosen, Duration::from_secs(5));
+    for (c, (v, o1, o2)) in bchosen.iter().zip(bres.iter()) {
+        o.count(&format!("boundary:{}", match v { Verdict::Idempotent => "idempotent", Verdict::NotIdempotent => "NOT-IDEMPOTENT", Verdict::FirstPassNotClean => "first-pass-reported-something", Verdict::Timeout => "timeout", Verdict::SecondPassFailed(_) => "SECOND-PASS-FAILED" }));
+        match v {
+            Verdict::Idempotent => {
+                o.direct_evals += 1;
+                if distinct.insert(c.id.clone()) && o1 != &c.src {
+                    o.direct_distinct += 1;
+                }
+            }
+            Verdict::NotIdempotent => {
+                o.direct_evals += 1;
+                o.direct_failures.push(json!({"sig": format!("c02:not-idempotent:{}", c.id), "what": format!("fmt(fmt(x)) != fmt(x) at a boundary width: {}", first_diff_line(o1, o2)), "case": c.id, "config": cfg_text(&c.cfg), "src": c.src, "first": o1, "second": o2}));
+            }
+            Verdict::SecondPassFailed(m) => {
+                o.direct_evals += 1;
+                o.direct_failures.push(json!({"sig": format!("c02:second-pass-failed:{}", c.id), "what": format!("the second pass failed on the first pass' output: {}", m), "case": c.id, "config": cfg_text(&c.cfg), "src": c.src, "first": o1}));
+            }
+            _ => {}
+        }
+    }
+    {
+        // listed dirty boundary elements that the plan reaches: one enumerated probe
+        let dres = judge(&bdirty_cases, Duration::from_secs(5));
+        let mut bad = 0;
+        let mut ex = String::new();
+        for (c, (v, o1, o2)) in bdirty_cases.iter().zip(dres.iter()) {
+            if matches!(v, Verdict::NotIdempotent | Verdict::SecondPassFailed(_)) {
+                bad += 1;
+                if ex.is_empty() {
+                    ex = format!("{}: {}", c.id, if let Verdict::SecondPassFailed(m) = v { m.clone() } else { first_diff_line(o1, o2) });
+                }
+            }
+        }
+        o.probes.push(json!({"id": "c02-dirty:boundary", "fails": bad > 0, "what": format!("{} of the {} listed boundary-width elements reached by the plan are not idempotent, e.g. {}", bad, bdirty_cases.len(), ex)}));
+    }
     // the listed dirty elements, as enumerated probes grouped by fixture
     let dirty_cases: Vec<Case> = all.iter().filter(|c| dirty.contains(&c.id)).cloned().collect();
     let dres = judge(&dirty_cases, timeout);
@@ -207,7 +298,12 @@ pub fn run(tier: &str, seed: u64, out: &Path) -> i32 {
         o.sample(json!({"case": c.id, "config": cfg_text(&c.cfg), "src_bytes": c.src.len()}));
     }
     o.exhaustive = tier == "thorough";
-    o.notes.push("universe = fixtures x {base, 7 widths, every option single, 3 name-seeded re-layouts}; thorough runs every element not listed dirty, quick runs every base element and a seeded sample of 6000 others; listed dirty elements run as probes".into());
+    o.notes.push("universe = fixtures x {base, 7 widths, every option single, 3 name-seeded re-layouts}; thorough runs every element not listed dirty, quick runs every base element and a seeded sample of 15000 others; listed dirty elements run as probes. Boundary family: universe B = top-level items of the fixtures x every max_width 20..200 (measured in full on the pinned tree, dirty/slow elements in corpus/c02_boundary_dirty.txt); a run takes, per item, the widths within one column of the length of a line of the item's output at max_width 200 (quick: every such pair, about 20000, plus a seeded sample of 10000 other elements of B; thorough: the whole universe B, 540000 elements)".into());
+    // re-breaking of strings and comments is the identity on its own output (StringFmt model and oracles)
+    {
+        let mut r = Rng::new(seed ^ 0x1157);
+        crate::strings_corr::cases_c02(&mut o, &mut r, tier == "thorough");
+    }
     o.finish(out, jobs_n())
 }
 
